@@ -1,0 +1,360 @@
+//! Verification hooks. Compiled only with `--cfg walrus_verif`; without the flag none of this
+//! exists and none of the call sites is compiled.
+//!
+//! H1  I/O events: every durable-state changing I/O of the engine reports here before it is
+//!     performed. A plan (env `WVERIF_PLAN` or `set_plan`) can terminate the process at the
+//!     k-th event (crash point), make an event fail or complete short (fault injection), or
+//!     record all events with their bytes (power-loss trace).
+//! H2  Yield points: a token scheduler that serialises registered threads and lets a
+//!     schedule (byte string) pick the next thread at every yield point.
+//! H3  Read-only view of the reclamation bookkeeping.
+//! H4  Entry points into the crate-private decoders for in-process fuzzing.
+use std::cell::Cell;
+use std::collections::HashMap;
+use std::io::Write;
+use std::sync::atomic::{AtomicU64, Ordering};
+use std::sync::{Condvar, Mutex, OnceLock};
+
+// ------------------------------------------------------------------------------------ H1
+
+#[derive(Debug, Clone, Copy, PartialEq, Eq)]
+pub enum Action {
+    Go,
+    /// terminate the process instead of performing the I/O
+    Die,
+    /// the I/O fails with this errno
+    Fail(i32),
+    /// a write transfers only this many bytes
+    Short(usize),
+}
+
+#[derive(Default)]
+struct Plan {
+    /// die before the k-th foreground event (1-based); 0 = never
+    die_at: u64,
+    /// tear the k-th foreground write: perform only `n` bytes of it, then die
+    torn_at: u64,
+    torn_bytes: usize,
+    /// (site, nth occurrence (1-based), action)
+    site_rules: Vec<(String, u64, Action)>,
+    site_counts: HashMap<String, u64>,
+    trace: Option<std::fs::File>,
+}
+
+fn plan() -> &'static Mutex<Plan> {
+    static P: OnceLock<Mutex<Plan>> = OnceLock::new();
+    P.get_or_init(|| {
+        let mut p = Plan::default();
+        if let Ok(s) = std::env::var("WVERIF_PLAN") {
+            let _ = parse_plan(&s, &mut p);
+        }
+        Mutex::new(p)
+    })
+}
+
+static FG_EVENTS: AtomicU64 = AtomicU64::new(0);
+
+/// Sites reached from background threads (marker persister, fsync/reclaim worker). Their
+/// timing relative to the foreground is not deterministic, so they do not take part in the
+/// foreground event numbering; they can be addressed by site rules.
+fn is_background_site(site: &str) -> bool {
+    site.starts_with("marker_") || site.starts_with("bg_")
+}
+
+fn parse_plan(s: &str, p: &mut Plan) -> Result<(), String> {
+    for part in s.split(';').map(|x| x.trim()).filter(|x| !x.is_empty()) {
+        if part == "off" {
+            *p = Plan::default();
+        } else if let Some(k) = part.strip_prefix("die@") {
+            if let Ok(n) = k.parse::<u64>() {
+                p.die_at = n;
+            } else {
+                // die@site#n
+                let (site, n) = k.split_once('#').ok_or("die@site#n")?;
+                p.site_rules.push((site.to_string(), n.parse().map_err(|_| "n")?, Action::Die));
+            }
+        } else if let Some(k) = part.strip_prefix("torn@") {
+            let (k, n) = k.split_once('=').ok_or("torn@k=n")?;
+            p.torn_at = k.parse().map_err(|_| "k")?;
+            p.torn_bytes = n.parse().map_err(|_| "n")?;
+        } else if let Some(k) = part.strip_prefix("fail@") {
+            let (site, rest) = k.split_once('#').ok_or("fail@site#n=errno")?;
+            let (n, e) = rest.split_once('=').ok_or("fail@site#n=errno")?;
+            p.site_rules.push((
+                site.to_string(),
+                n.parse().map_err(|_| "n")?,
+                Action::Fail(e.parse().map_err(|_| "errno")?),
+            ));
+        } else if let Some(k) = part.strip_prefix("short@") {
+            let (site, rest) = k.split_once('#').ok_or("short@site#n=bytes")?;
+            let (n, b) = rest.split_once('=').ok_or("short@site#n=bytes")?;
+            p.site_rules.push((
+                site.to_string(),
+                n.parse().map_err(|_| "n")?,
+                Action::Short(b.parse().map_err(|_| "bytes")?),
+            ));
+        } else if let Some(path) = part.strip_prefix("trace=") {
+            p.trace = Some(
+                std::fs::OpenOptions::new()
+                    .create(true)
+                    .append(true)
+                    .open(path)
+                    .map_err(|e| e.to_string())?,
+            );
+        } else {
+            return Err(format!("bad plan element {:?}", part));
+        }
+    }
+    Ok(())
+}
+
+pub fn set_plan(s: &str) -> Result<(), String> {
+    let mut g = plan().lock().unwrap();
+    parse_plan(s, &mut g)
+}
+
+pub fn io_count() -> u64 {
+    FG_EVENTS.load(Ordering::SeqCst)
+}
+
+pub fn die() -> ! {
+    unsafe { libc::_exit(137) }
+}
+
+/// Report an I/O event that is about to be performed. `data` are the bytes about to be
+/// written (empty for non-writes); `aux` is a second path (rename target) or "".
+pub fn io_event(site: &'static str, path: &str, aux: &str, off: u64, data: &[u8]) -> Action {
+    let mut g = plan().lock().unwrap();
+    let bg = is_background_site(site);
+    let n = if bg { 0 } else { FG_EVENTS.fetch_add(1, Ordering::SeqCst) + 1 };
+    let cnt = {
+        let c = g.site_counts.entry(site.to_string()).or_insert(0);
+        *c += 1;
+        *c
+    };
+    if let Some(f) = g.trace.as_mut() {
+        let mut hex = String::new();
+        if data.len() <= 65_536 {
+            hex.reserve(data.len() * 2);
+            for b in data {
+                hex.push_str(&format!("{:02x}", b));
+            }
+        } else {
+            hex.push('-');
+        }
+        // one write(2) per event line
+        let line = format!(
+            "{{\"n\":{},\"site\":\"{}\",\"occ\":{},\"path\":{:?},\"aux\":{:?},\"off\":{},\"len\":{},\"data\":\"{}\"}}\n",
+            n,
+            site,
+            cnt,
+            path,
+            aux,
+            off,
+            data.len(),
+            hex
+        );
+        let _ = f.write_all(line.as_bytes());
+    }
+    if !bg {
+        if g.die_at != 0 && n == g.die_at {
+            return Action::Die;
+        }
+        if g.torn_at != 0 && n == g.torn_at {
+            return Action::Short(g.torn_bytes);
+        }
+    }
+    for (s, occ, act) in g.site_rules.iter() {
+        if s == site && *occ == cnt {
+            return *act;
+        }
+    }
+    Action::Go
+}
+
+/// Convenience for I/O that either happens completely or not at all: dies or returns the
+/// injected error. `Short` is meaningless here and ignored.
+pub fn io_gate(site: &'static str, path: &str, aux: &str) -> std::io::Result<()> {
+    match io_event(site, path, aux, 0, &[]) {
+        Action::Die => die(),
+        Action::Fail(e) => Err(std::io::Error::from_raw_os_error(e)),
+        _ => Ok(()),
+    }
+}
+
+thread_local! { static CQE_SUBST: std::cell::RefCell<HashMap<usize, i32>> = std::cell::RefCell::new(HashMap::new()); }
+
+/// The completion of batch entry `idx` will be reported to the engine as `val`
+/// (negative errno or a short byte count) instead of the kernel's result.
+pub fn set_cqe_subst(idx: usize, val: i32) {
+    CQE_SUBST.with(|m| {
+        m.borrow_mut().insert(idx, val);
+    });
+}
+
+pub fn take_cqe_subst(idx: usize, real: i32) -> i32 {
+    CQE_SUBST.with(|m| m.borrow_mut().remove(&idx)).unwrap_or(real)
+}
+
+// ------------------------------------------------------------------------------------ H2
+
+struct Sched {
+    m: Mutex<State>,
+    cv: Condvar,
+}
+struct State {
+    enabled: bool,
+    current: Option<usize>,
+    waiting: Vec<usize>,
+    finished: Vec<usize>,
+    nthreads: usize,
+    schedule: Vec<u8>,
+    pos: usize,
+    yields: u64,
+    clock: u64,
+}
+fn sched() -> &'static Sched {
+    static S: OnceLock<Sched> = OnceLock::new();
+    S.get_or_init(|| Sched {
+        m: Mutex::new(State {
+            enabled: false,
+            current: None,
+            waiting: vec![],
+            finished: vec![],
+            nthreads: 0,
+            schedule: vec![],
+            pos: 0,
+            yields: 0,
+            clock: 0,
+        }),
+        cv: Condvar::new(),
+    })
+}
+thread_local! { static TID: Cell<Option<usize>> = const { Cell::new(None) }; }
+
+pub fn sched_begin(nthreads: usize, schedule: Vec<u8>) {
+    let s = sched();
+    let mut st = s.m.lock().unwrap();
+    *st = State {
+        enabled: true,
+        current: None,
+        waiting: vec![],
+        finished: vec![],
+        nthreads,
+        schedule,
+        pos: 0,
+        yields: 0,
+        clock: 0,
+    };
+}
+
+/// Returns the number of yield points that were passed.
+pub fn sched_end() -> u64 {
+    let s = sched();
+    let mut st = s.m.lock().unwrap();
+    st.enabled = false;
+    st.yields
+}
+
+fn pick_next(st: &mut State) {
+    if st.waiting.is_empty() {
+        st.current = None;
+        return;
+    }
+    st.waiting.sort();
+    let b = if st.pos < st.schedule.len() {
+        let b = st.schedule[st.pos];
+        st.pos += 1;
+        b as usize
+    } else {
+        0
+    };
+    let idx = b % st.waiting.len();
+    let t = st.waiting.remove(idx);
+    st.current = Some(t);
+}
+
+/// Called by each registered worker thread before its first operation.
+pub fn thread_start(tid: usize) {
+    TID.with(|t| t.set(Some(tid)));
+    let s = sched();
+    let mut st = s.m.lock().unwrap();
+    st.waiting.push(tid);
+    if st.waiting.len() + st.finished.len() == st.nthreads && st.current.is_none() {
+        pick_next(&mut st);
+        s.cv.notify_all();
+    }
+    while st.current != Some(tid) {
+        st = s.cv.wait(st).unwrap();
+    }
+}
+
+pub fn thread_finish() {
+    let Some(tid) = TID.with(|t| t.get()) else { return };
+    TID.with(|t| t.set(None));
+    let s = sched();
+    let mut st = s.m.lock().unwrap();
+    st.finished.push(tid);
+    st.current = None;
+    if st.waiting.len() + st.finished.len() == st.nthreads {
+        pick_next(&mut st);
+    }
+    s.cv.notify_all();
+}
+
+/// A logical time stamp (strictly increasing; only the token holder runs, so stamps of
+/// registered threads are totally ordered consistently with real time).
+pub fn stamp() -> u64 {
+    let s = sched();
+    let mut st = s.m.lock().unwrap();
+    st.clock += 1;
+    st.clock
+}
+
+/// A point at which the calling thread holds no engine lock. Unregistered threads (and every
+/// thread while no schedule is active) pass straight through.
+pub fn yield_point(_site: &'static str) {
+    let Some(tid) = TID.with(|t| t.get()) else { return };
+    let s = sched();
+    let mut st = s.m.lock().unwrap();
+    if !st.enabled {
+        return;
+    }
+    st.yields += 1;
+    st.waiting.push(tid);
+    st.current = None;
+    pick_next(&mut st);
+    s.cv.notify_all();
+    while st.current != Some(tid) {
+        st = s.cv.wait(st).unwrap();
+    }
+}
+
+// ------------------------------------------------------------------------------------ H3
+
+/// (path, locked blocks, checkpointed counter, total blocks, fully allocated) per tracked file.
+pub fn file_states() -> Vec<(String, u16, u16, u16, bool)> {
+    crate::wal::runtime::verif_file_states()
+}
+
+// ------------------------------------------------------------------------------------ H4
+
+/// Decode the entry at `in_block_offset` of the block starting at `block_offset` of `path`
+/// through the engine's own `Block::read`. Returns (payload length, bytes consumed).
+pub fn read_block_entry(
+    path: &str,
+    block_offset: u64,
+    block_limit: u64,
+    in_block_offset: u64,
+) -> std::io::Result<(Vec<u8>, usize)> {
+    let mmap = crate::wal::storage::SharedMmap::new(path)?;
+    let b = crate::wal::block::Block {
+        id: 1,
+        offset: block_offset,
+        limit: block_limit,
+        used: 0,
+        file_path: path.to_string(),
+        mmap,
+    };
+    b.read(in_block_offset).map(|(e, n)| (e.data, n))
+}
